@@ -1588,11 +1588,46 @@ real_case(int cop, const size_t *p, int np, size_t n, size_t cap, bool plain_buf
     case C_DRAIN_AUX: rc = sts_drain_aux(&source, &sink, &aux); break;
     }
     mc_trans(1);
-    size_t taken = 0, foreign = 0;
-    for (int i = 0; i < np; ++i)
-        taken += part[i].offset - (size_t)lead;
+    size_t foreign = 0;
     for (int i = 0; i < inactive; ++i)
         foreign += list[i].offset - 1u;
+    /* How far the source advanced, free of how the endpoint represents its
+     * position (audit 6: chunk offsets, ByteChunks.active moved past a chunk
+     * that was delivered wholly, a cursor of its own ...): what the same source
+     * delivers from here on, octet by octet through its own driver, has to be
+     * exactly the rest of the stream; its length says where the source stands.
+     * rest_bad: it is not a suffix of the stream (then `taken` means nothing). */
+    size_t taken = 0;
+    bool rest_bad = false;
+    {
+        unsigned char rest[REAL_MAXPARTS * 8 + 8];
+        size_t nrest = 0;
+        int idle = 0;
+        const int idle_max = 2 * nch + 4; /* answers of 0 while empty chunks are stepped over */
+        while (nrest < sizeof rest && idle <= idle_max) {
+            unsigned char o = 0;
+            const ssize_t r = real_source.kind == DATA_KIND_OCTET ? (ssize_t)real_source.source.octet(real_source.driver, &o)
+                                                                  : real_source.source.chunk(real_source.driver, &o, 1);
+            if (r < 0)
+                break;
+            if (r == 0) {
+                idle++;
+                continue;
+            }
+            idle = 0;
+            rest[nrest++] = o;
+        }
+        if (nrest > L || idle > idle_max) {
+            rest_bad = true;
+        } else {
+            taken = L - nrest;
+            for (size_t k = 0; k < nrest; ++k)
+                rest_bad |= rest[k] != STREAM(taken + k);
+        }
+        mc_log_hex("what the source delivers after the call", rest, nrest);
+        if (rest_bad)
+            mc_log("... which is not a suffix of the stream of %zu octets", L);
+    }
     const bool sink_shrunk = sinkb.used < pre;
     const size_t sinkgot = sink_shrunk ? 0 : sinkb.used - pre;
     const unsigned char *sinkdata = sinkmem + pre;
@@ -1606,6 +1641,12 @@ real_case(int cop, const size_t *p, int np, size_t n, size_t cap, bool plain_buf
         mc_fail("C17/hang", "%s kept calling its drivers: source %d calls, sink %d calls (budget %d each)", COPNAME[cop],
                 wsrc.calls, wsnk.calls, budget);
         outcome = "hang";
+    } else if (rest_bad && rc >= 0) {
+        /* "no loss, duplication or reordering": after a call that did not fail
+         * the source goes on with the rest of the stream */
+        mc_fail("C17/source-advance", "%s returned %zd; what the source delivers afterwards is not the rest of the stream (see replay)",
+                COPNAME[cop], rc);
+        outcome = "violation";
     } else if (cop == C_GET_CHUNK) {
         if (L >= n) {
             if (rc != (ssize_t)n)
@@ -1654,7 +1695,7 @@ real_case(int cop, const size_t *p, int np, size_t n, size_t cap, bool plain_buf
          * the source ends before the count (-ENODATA) */
         const bool may_enomem = cap < (want < L ? want : L);
         const bool may_enodata = L < want;
-        if (sink_shrunk || sinkgot > cap || sinkgot > taken || sinkgot > want || !is_prefix(sinkdata, sinkgot <= cap ? sinkgot : cap)) {
+        if (sink_shrunk || sinkgot > cap || (!rest_bad && sinkgot > taken) || sinkgot > want || !is_prefix(sinkdata, sinkgot <= cap ? sinkgot : cap)) {
             mc_fail("C17/sink-prefix", "%zu octets taken from the source, sink %s %zu: [%s]", taken,
                     sink_shrunk ? "lost octets it held before; appended" : "received", sinkgot,
                     hexs(sinkdata, sinkgot <= cap ? sinkgot : cap));
